@@ -24,7 +24,7 @@ RULE = (
     "(acyclic anchor chains; cyclic ones are contradictory input, counted and excluded); plus class-level order([...]) "
     "for every permutation and order({...}) mapping overrides, and inheritance (spec in base / override in derived) for "
     "n<=3; plus classes of 3 fields where the anchor of an after / before is absent from some views (skip(serialization=True), "
-    "skip(deserialization=True), init=False). Four views must be the same permutation (projected on the elements a view contains): keys of serialize(), "
+    "skip(deserialization=True), init=False, InitVar). Four views must be the same permutation (projected on the elements a view contains): keys of serialize(), "
     "properties of serialization_schema and deserialization_schema, field order of the GraphQL object type; and equal to "
     "the reference order. distinct_nontrivial counts distinct (n, split, spec) classes."
 )
@@ -392,6 +392,8 @@ def run_absent_anchors(st: infra.Stats):
         "skip_ser": ("field(default=0, metadata=skip(serialization=True){md})", {"serialize", "serialization_schema"}),
         "skip_deser": ("field(default=0, metadata=skip(deserialization=True){md})", {"deserialization_schema"}),
         "init_false": ("field(default=0, init=False{mdkw})", {"deserialization_schema"}),
+        # an InitVar declared anywhere among the fields (dataclasses keeps it apart from the regular fields)
+        "initvar": ("field(default=0{mdkw})", {"serialize", "serialization_schema"}),
     }
     names = ["f0", "f1", "f2"]
     src, metas = [], []
@@ -419,7 +421,7 @@ def run_absent_anchors(st: infra.Stats):
                             for n in names:
                                 o = spec_src(sp.get(n))
                                 if n == anchor:
-                                    lines.append(f"    {n}: int = " + decl.format(md=(" | " + o) if o else "", mdkw=(", metadata=" + o) if o else ""))
+                                    lines.append(f"    {n}: {'InitVar[int]' if kind == 'initvar' else 'int'} = " + decl.format(md=(" | " + o) if o else "", mdkw=(", metadata=" + o) if o else ""))
                                 elif o:
                                     lines.append(f"    {n}: int = field(default=0, metadata={o})")
                                 else:
